@@ -1352,6 +1352,13 @@ mod convert {
             }
             let mut tombstone = false;
             self.address = None;
+            // The address offset of the previous row in the current sequence. The offsets
+            // of rows following a `DW_LNE_set_address` continue from this offset.
+            let prev_address_offset = if self.from_row.end_sequence() {
+                0
+            } else {
+                self.from_row.address()
+            };
             self.from_row.reset(self.from_program.header());
             while let Some(instruction) = self
                 .from_instructions
@@ -1359,11 +1366,10 @@ mod convert {
             {
                 match instruction {
                     read::LineInstruction::SetAddress(val) => {
-                        // Use address 0 so that all addresses are offsets.
-                        self.from_row.execute(
-                            read::LineInstruction::SetAddress(0),
-                            &mut self.from_program,
-                        )?;
+                        // Continue from the offset of the previous row so that all
+                        // addresses are offsets. This must not use `from_row.execute`
+                        // because that would treat the lower address as a tombstone.
+                        self.from_row.set_address(prev_address_offset);
                         // Handle tombstones the same way that `from_row.execute` would have.
                         let tombstone_address =
                             !0 >> (64 - self.from_program.header().encoding().address_size * 8);
